@@ -6,8 +6,11 @@ REG = dict(
         "upper bound max|f-p| for non-algebraic f: numerical (the property's 40,000-point grid plus local refinement), "
         "not proved; for polynomial f and x^(m+1/2) it is proved for all x by the verified certificate when the "
         "certificate search succeeds (counted per run)",
-        "IEEE-754 rounding inside numpy is not modelled; convergence of the floating-point exchange iteration is not "
-        "proved (OptimizationError is an allowed outcome)",
+        "IEEE-754 rounding inside numpy is not modelled; convergence of the floating-point exchange iteration within its "
+        "25 rounds is not proved (OptimizationError is an allowed outcome), nor that the golden-section searches find the "
+        "maxima of |f-p| on their brackets; what IS proved about the exchange in exact arithmetic: the levelling "
+        "denominator is non-zero on every strictly increasing reference, and a new ordered reference on which the old "
+        "levelled polynomial has sign-alternating errors >= |h_old| has |h_new| >= |h_old| (strictly if one point improved)",
         "monotonicity of the reported err in n and err <= atol on exact fits are compared, not proved (the corresponding "
         "facts about the true minimax error are theorems)",
     ],
@@ -18,11 +21,20 @@ TEXT = dict(
     level="Verified sufficient-condition checkers run on the code's actual output (floats read as exact rationals): the de la "
           "Vallee-Poussin alternation checker on the returned reference (soundness theorem: accepted => for every real f inside "
           "the enclosures no polynomial of degree <= n has uniform error below err-atol-1e-13 on [a,b]; built on dvp and the "
-          "levelled-error theorem, for the very term the driver evaluates) and the adaptive Taylor-shift range checker "
+          "levelled-error theorem, for the very term the driver evaluates; the levelled-error theorem needs no hypothesis "
+          "beyond a strictly increasing reference, its denominator being proved non-zero there) and the adaptive Taylor-shift range checker "
           "(accepted => |f-P| <= err+atol+1e-11*max|f| at every real x of [a,b], for polynomial f and x^(m+1/2)); universal "
-          "theorems on the minimax error (monotone in degree and interval, zero on exact fits). Tied to the code on every run "
+          "theorems on the minimax error (monotone in degree and interval, zero on exact fits) and on the exchange step "
+          "(weighted-mean representation h = sum lambda_i (-1)^i (f(x_i)-q(x_i)) for every q of degree <= n; alternating "
+          "errors >= |h_old| on the new reference => |h_new| >= |h_old|; |h| <= E_n(f;[a,b]) <= sup|f-p|). Tied to the code on every run "
           "by a seeded differential harness over the property's family.",
-    note="Proved: what an accepted certificate implies (continuum quantifiers over f-in-enclosure, competing polynomials, x). "
+    note="Proved: what an accepted certificate implies (continuum quantifiers over f-in-enclosure, competing polynomials, x); "
+         "in exact arithmetic over any ordered field: levelled error exactly (-1)^i h with a denominator that cannot vanish on "
+         "an ordered reference, sign (-1)^(n+1-i) of the barycentric weights of the n+2 reference points, the weighted-mean "
+         "representation of h, exchange monotonicity (the code's conditions 1 and 2 imply |h_new| >= |h_old|, strict if a "
+         "point strictly improved), the sandwich |h| <= E_n <= sup|f-p|. "
          "Compared, not proved: mpmath enclosures of transcendental values, the grid upper bound for non-algebraic f, float "
-         "rounding, convergence of the exchange iteration, monotonicity/exact-fit of the reported err.",
+         "rounding, convergence of the exchange iteration within 25 rounds, that golden-section search finds the maxima of "
+         "|f-p| (condition 2 is a hypothesis of the theorem, not a proved property of the search), monotonicity/exact-fit of "
+         "the reported err.",
 )
